@@ -163,6 +163,10 @@ def parseOp (toks : List String) : Option String :=
   | "header" :: rest => do
     let (cls, pr, mode, b) ← runP (do let cls ← pId; let pr ← pNat; let mode ← pMode; let b ← pABuf; pEnd; pure (cls, pr, mode, b)) rest
     pure (showPy (fun (h : Header) => s!"{h.length} {showFields h.fields}") (runParser (fuelFor b) ⟨cls, pr == 1, mode⟩ b))
+  | "unparseraw" :: rest => do
+    -- `CoAPParser(SEMANTIC).unparse` on an arbitrary (id, value) list
+    let fs ← runP (do let n ← pNat; let fs ← pRep n (do let i ← pId; let v ← pABuf; pure (i, v)); pEnd; pure fs) rest
+    pure (showPy showPairs (coapUnparse .semantic fs))
   | "unparse" :: rest => do
     -- CoAP: semantic parse, then unparse
     let b ← runP (do let b ← pABuf; pEnd; pure b) rest
